@@ -44,9 +44,15 @@ FirstMessage(s) == s.kind \in {"unary", "server"}      \* the library reads the 
 Stream(s) ==
   CASE s.body = "good"      -> [msgs |-> <<1>>, codes |-> {0}]
     [] s.body = "two"       -> [msgs |-> IF FirstMessage(s) THEN <<1>> ELSE <<1, 2>>, codes |-> {0}]
-    [] s.body = "empty"     -> IF RawBody(s) THEN [msgs |-> <<0>>, codes |-> 0..16]     \* empty body = zero message (codec willing)
+    \* an empty unary Connect body is the codec's business: the binary codecs read the zero message, for JSON the empty
+    \* string is not a document -- it must not reach user code as a message
+    [] s.body = "empty"     -> IF RawBody(s) /\ s.ctype = "application/json" THEN [msgs |-> <<>>, codes |-> {3}]
+                               ELSE IF RawBody(s) THEN [msgs |-> <<0>>, codes |-> 0..16]
                                ELSE IF FirstMessage(s) THEN [msgs |-> <<>>, codes |-> 1..16]
                                ELSE [msgs |-> <<>>, codes |-> {0}]
+    \* three messages, each below the limit, together above it (the request announces its Content-Length)
+    [] s.body = "manyok"    -> IF RawBody(s) THEN [msgs |-> <<>>, codes |-> 0..16]       \* (no envelopes: one oversize or undecodable body)
+                               ELSE [msgs |-> IF FirstMessage(s) THEN <<1>> ELSE <<1, 2, 3>>, codes |-> {0}]
     [] s.body = "garbage"   -> [msgs |-> <<>>, codes |-> 1..16]
     [] s.body = "truncated" -> [msgs |-> <<>>, codes |-> IF RawBody(s) THEN 0..16 ELSE 1..16]
     [] s.body \in {"badmsg", "badutf8"} -> [msgs |-> <<>>, codes |-> {3}]
